@@ -6,6 +6,11 @@ use serde_json::{json, Value};
 use crate::ctx::{guard, hx, Ctx, Panicked};
 use crate::prng::Rng;
 
+pub mod aead;
+#[cfg(feature = "sodium")]
+pub mod c01;
+#[cfg(feature = "sodium")]
+pub mod c02;
 #[cfg(feature = "sodium")]
 pub mod c05;
 #[cfg(feature = "sodium")]
@@ -18,6 +23,12 @@ pub mod c12;
 
 pub fn dispatch(name: &str, cx: &mut Ctx) -> bool {
     match name {
+        #[cfg(feature = "sodium")]
+        "c01" => c01::run(cx),
+        #[cfg(feature = "sodium")]
+        "c02" => c02::run_c02(cx),
+        #[cfg(feature = "sodium")]
+        "c17" => c02::run_c17(cx),
         #[cfg(feature = "sodium")]
         "c05" => c05::run(cx),
         #[cfg(feature = "sodium")]
